@@ -259,7 +259,9 @@ Definition len_of (o : obj) : option nat :=
 (* ------------------------------------------------------------------ *)
 (* values *)
 
-Inductive lenext := MinLen (n : Z) | MaxLen (n : Z).
+(* the extensions narrowing adds to a value: the len custom checks, and HasAttrExtension
+   (says nothing about membership, but an annotated value is no longer a plain literal) *)
+Inductive lenext := MinLen (n : Z) | MaxLen (n : Z) | HasAttrExt (name : N).
 
 (* GenericValue(list, [t]), GenericValue(dict, [k, v]), patma.MatchableSequence
    (Annotated[Sequence, Exclude[str | bytes | bytearray]]) and signature.MappingValue
@@ -289,6 +291,7 @@ Definition lenext_eqb (a b : lenext) : bool :=
   match a, b with
   | MinLen x, MinLen y => Z.eqb x y
   | MaxLen x, MaxLen y => Z.eqb x y
+  | HasAttrExt x, HasAttrExt y => N.eqb x y
   | _, _ => false
   end.
 
@@ -337,13 +340,10 @@ Definition member_b (o : obj) (b : bval) : bool :=
   end.
 
 Definition ext_holds (o : obj) (e : lenext) : bool :=
-  match len_of o with
-  | Some n =>
-      match e with
-      | MinLen k => Z.leb k (Z.of_nat n)
-      | MaxLen k => Z.leb (Z.of_nat n) k
-      end
-  | None => false
+  match e with
+  | HasAttrExt _ => true
+  | MinLen k => match len_of o with Some n => Z.leb k (Z.of_nat n) | None => false end
+  | MaxLen k => match len_of o with Some n => Z.leb (Z.of_nat n) k | None => false end
   end.
 
 Definition member_s (o : obj) (s : sval) : bool :=
